@@ -11,41 +11,49 @@ import z3
 from symx import terms as T
 from symx import smt
 from symx import diff as D_
-from symx import stubs
+from symx import stubs          # noqa: F401  (registers the fsolve/bisect contract stubs with the shim)
 from symx.framework import Obligation, V
 from symx.engine import SymReal, SymBool, term_of, current
-from symx.shim import Recorder, NumpyProxy
+from symx.shim import Recorder
 from . import common as H
-from .common import K, Mode
+from .common import K
 
 EXPLANATION = ('The real heat solvers (constructors, mode tables and _run) are executed on symbolic diffusivities, lengths, '
-               'boundary data, initial end temperatures, positions and times with small concrete truncation orders. z3 '
-               'decides, on the returned terms: the diffusion equation from exact symbolic derivatives (sin/cos/exp/sinh/'
-               'Bessel atoms closed under differentiation); the declared boundary operator on the static part '
-               '(inhomogeneous) and on the mode sum (homogeneous) after substituting the boundary position and '
-               'replacing sin/cos whose argument z3 proves to be a rational multiple of pi by their exact values; the '
-               'coded mode numbers and Fourier coefficients against projection integrals written in the harness '
-               '(this replaces the t->0+ limit); decay of every mode and the steady remainder (t->infinity); and the '
-               'r->0 limit of the r!=0 branch of Hutchens 1 (symbolic series expansion) against the value returned at r==0.')
-BOUNDS = ['truncation orders are small and concrete (rod/sandwiches Nsum=4 quick, 7 thorough; Hutchens 1: 3 modes quick, 6 thorough; '
-          'Hutchens 2: 2 modes quick, 3 thorough; rectangle Nsum=3 quick, 4 thorough; cylindrical sandwich 1x1 mode, thorough tier only)',
-          'boundary-condition types BC1-BC4, the two general (Robin) cases and the three planar sandwich classes are enumerated; '
-          'all real parameters, x and t are symbolic',
-          'one evaluation point per run']
-OUTSIDE = ['convergence of the infinite series to the initial profile (t->0+) and to the boundary values where a boundary '
-           'condition is only met in the limit (Hutchens 2 at r=b): replaced by the coefficient-equals-projection claims',
+               'boundary data, initial end temperatures, positions and times with small concrete truncation orders; single '
+               'modes are isolated from the public call by differences in Nsum. z3 decides, on the returned terms: the '
+               'diffusion equation from exact symbolic derivatives (sin/cos/exp/sinh/Bessel atoms closed under '
+               'differentiation); the declared boundary operator on the static part (inhomogeneous) and on every mode '
+               '(homogeneous) after substituting the boundary position and replacing sin/cos whose argument z3 proves to be '
+               'a rational multiple of pi by their exact values; the coded mode numbers and Fourier coefficients against '
+               'projection integrals written in the harness (this replaces the t->0+ limit); decay of every exponential and '
+               'the steady remainder (t->infinity); and the r->0 limit of the r!=0 branch of Hutchens 1 (exact series '
+               'expansion in r) against the value returned at r==0.')
+BOUNDS = ['truncation orders are small and concrete: rod BC1-BC4 and sandwiches Nsum=4 (quick) / 9 (thorough); general Robin rod '
+          'Nsum=3 / 5; Hutchens 1 modes n=1..3 / 1..7; Hutchens 2 Nsum=2 / 3; rectangle Nsum=3 / 5; cylindrical sandwich '
+          'Nsum=Msum=1 (thorough tier only)',
+          'boundary-condition types BC1-BC4, the two general (Robin) branches (alpha1 != 0; alpha1 == 0), each with general and with '
+          'homogeneous data, and the three planar sandwich classes are enumerated; all real parameters, x and t are symbolic',
+          'general Robin rod: physical sign convention alpha1, alpha2 > 0, beta1 < 0 < beta2 (the tested configuration)',
+          'one evaluation point per run (boundary points, t=0 and antinodes are reached by exact substitution in the terms)']
+OUTSIDE = ['convergence of the infinite series to the initial profile (t->0+) and to boundary values that are only met in the '
+           'limit (Hutchens 2 at r=b, rectangle at y=b): replaced by the coefficient-equals-projection claims',
            '"truncation order large enough for the requested accuracy" (no accuracy claim is made)',
-           'which root of the transcendental eigenvalue equation fsolve/newton returns (any root is admitted), hence completeness '
-           'of the mode set of the general Robin rod and of the cylindrical sandwich',
-           'the quadrature in the cylindrical sandwich (its value is a free symbol)']
+           'which root of the transcendental eigenvalue equation fsolve/newton returns (any positive root is admitted), hence '
+           'completeness of the mode set of the general Robin rod and of the cylindrical sandwich; completeness of the '
+           'Hutchens 2 mode set (only odd axial modes are coded)',
+           'the quadrature and the normalisation integral of the cylindrical sandwich (the quadrature value is a free symbol), '
+           'hence its initial condition']
 ASSUMPTIONS = ['exact values of sin and cos at rational multiples of pi with denominator 1, 2, 3, 4 or 6 (used only after z3 has '
                'proved that the argument equals that multiple of pi under the domain)',
-               'tan(u) cos(u) = sin(u), sin(2u) = 2 sin(u) cos(u), cos(2u) = cos(u)^2 - sin(u)^2, and congruence '
-               '(equal arguments give equal values) for sin/cos atoms (general Robin rod)',
-               'Taylor expansion of sin, cos, exp about a point (Hutchens 1 r->0 limit)',
-               'Bessel functions: I0\' = I1, I1\' = I0 - I1/x; J0\' = -J1, J1\' = J0 - J1/x (same for Y); '
+               'tan(u) cos(u) = sin(u), sin^2+cos^2 = 1, sin(2u) = 2 sin(u) cos(u), cos(2u) = cos(u)^2 - sin(u)^2 and congruence '
+               '(equal arguments give equal values) for the sin/cos atoms of one eigenvalue root (general Robin rod)',
+               'Taylor expansion of sin, cos, exp about a point (Hutchens 1 r->0 limits)',
+               'Bessel functions: I0\' = I1, I1\' = I0 - I1/x, I0(0) = 1, I1(0) = 0; J0\' = -J1, J1\' = J0 - J1/x (same for Y); '
                'J_{k+1}(x) = (2k/x) J_k(x) - J_{k-1}(x) (same for Y) used to express jn/yn of integer order by j0, j1, y0, y1',
-               'fsolve/newton stubs: the returned value is an arbitrary zero of the real residual function']
+               'fsolve/newton stubs: the returned value is an arbitrary zero of the real residual function; for the decay claim '
+               'of the general Robin rod the returned roots are assumed positive',
+               'a value obtained by substituting an input in the term of a code path is claimed only under the substituted path '
+               'condition']
 META = {
     'level_text': ('Bounded symbolic check of the real heat solvers: diffusivity, lengths/radii, boundary values and fluxes, initial '
                    'end temperatures, position and time are symbolic reals; boundary-condition types, solver classes and mode '
@@ -922,7 +930,8 @@ class H1R0(H1Base):
                 cx.eq('r!=0 branch has no r^-%d singularity' % (len(poles) - i), p, 0)
         else:
             lim = cx.at(r=1e-6 * cx.p('b'))[key]
-        cx.eq('value returned at r=0 equals the r->0 limit of nearby values', cx['Tcenter'], lim)
+        # compared relative to the surface temperature (the natural scale is |T0 - Tb|)
+        cx.eq('value returned at r=0 equals the r->0 limit of nearby values', cx['Tcenter'] - cx['_Tb'], lim - cx['_Tb'])
 
 
 class H1Coeff(H1Base):
@@ -1014,18 +1023,31 @@ class H2Base(Obligation):
 
 
 class H2PDE(H2Base):
+    """The operator is linear: T[N] = T[0] + sum_j (T[j+1] - T[j]) and T[j+1] - T[j] = sum_{i<=j} D_i with the second
+    differences D_0 = T[1] - T[0], D_j = T[j+1] - 2 T[j] + T[j-1] (T[j]: the public call with Nsum = j).  So the static
+    part T[0] must balance the source and every D_j must be harmonic.  With the accumulator added inside the loop (as
+    coded) D_j is exactly series term j; with the accumulator added once after the loop it is term j minus term j-1."""
+
     def __init__(self, nsum, g0zero=False):
         self.setup(nsum, g0zero)
         self.id = 'C14.pde.hutchens2' + self.sfx
-        self.bounds = 'Nsum=%d; %s' % (nsum, self.ptxt)
+        self.bounds = 'static part and series terms j<%d one by one; %s' % (nsum, self.ptxt)
 
     def claims(self, cx):
         cx = Guarded(cx)
-        f = lambda c: c['T%d' % self.nsum]
         r = cx['_r']
+        L2 = cx['_L'] * cx['_L']
         src = cx['_g0'] / cx['_k']
-        cx.zero('T_rr + T_r/r + T_zz + g0/k = 0', [cx.d(f, 'r', 2), cx.d(f, 'r') / r, cx.d(f, 'z', 2), src], tol=1e-3,
-                scale_extra=[cx['T%d' % self.nsum] / (cx['_L'] * cx['_L'])])
+        f0 = lambda c: c['T0']
+        cx.zero('static part: T_rr + T_r/r + T_zz + g0/k = 0', [cx.d(f0, 'r', 2), cx.d(f0, 'r') / r, cx.d(f0, 'z', 2), src], tol=1e-3,
+                scale_extra=[cx['T0'] / L2])
+        for j in range(self.nsum):
+            if j == 0:
+                f = lambda c: c['T1'] - c['T0']
+            else:
+                f = lambda c, j=j: c['T%d' % (j + 1)] - 2 * c['T%d' % j] + c['T%d' % (j - 1)]
+            cx.zero('series term %d: T_rr + T_r/r + T_zz = 0' % j, [cx.d(f, 'r', 2), cx.d(f, 'r') / r, cx.d(f, 'z', 2)], tol=1e-3,
+                    scale_extra=[f(cx) / L2, cx['T%d' % self.nsum] * 1e-6 / L2])
 
 
 class H2BC(H2Base):
@@ -1303,7 +1325,6 @@ def quad_stub(func, a, b, args=(), **kw):
 
 class CylBase(Obligation):
     uses_derivatives = True
-    quick = False
     timeout_s = 60
     timeout_thorough_s = 600
     deriv_tol = 1e-3
@@ -1392,21 +1413,21 @@ class CylSteady(CylBase):
 def obligations(tier):
     q = tier == 'quick'
     obs = []
-    N = 4 if q else 7
+    N = 4 if q else 9
     for cfg in ROD:
         robin = ROD[cfg]['kind'].startswith('robin')
-        n = (3 if q else 4) if robin else N
+        n = (3 if q else 5) if robin else N
         obs.append(RodPDE(cfg, n))
         obs.append(RodBC(cfg, n, 'x0'))
         obs.append(RodBC(cfg, n, 'xL'))
         obs.append(RodCoeff(cfg, n))
         obs.append(RodSteady(cfg, n))
-    n1 = 4 if q else 7
+    n1 = 4 if q else 8
     obs += [H1PDE(n1), H1BC(n1), H1R0(n1), H1Coeff(n1), H1Steady(n1)]
     n2 = 2 if q else 3
     for g0zero in (False, True):
         obs += [H2PDE(n2, g0zero), H2BC(n2, g0zero), H2Coeff(n2, g0zero)]
-    nr = 3 if q else 4
+    nr = 3 if q else 5
     obs += [RectPDE(nr), RectBC(nr), RectCoeff(nr), RectSteady(nr)]
     if not q:
         obs += [CylPDE(), CylBC(), CylSteady()]
